@@ -1,6 +1,7 @@
 package main
 
 import (
+	"sort"
 	"bytes"
 	"encoding/json"
 	"fmt"
@@ -276,7 +277,69 @@ type c07Violation struct {
 	class, detail, culprit, field string
 }
 
+// cacheSnap is how a stored *parsley.Result read when the monitor first saw it.
+type cacheSnap struct {
+	node kidKey
+	cp   string
+	lrc  string
+	err  string
+}
+
+func snapResult(r *parsley.Result) cacheSnap {
+	s := cacheSnap{cp: renderCP(r.CurtailingParsers), err: renderErr(r.Error)}
+	if r.Node != nil {
+		s.node = keyOf(r.Node)
+	}
+	var kv []string
+	r.LeftRecCtx.Each(func(k, v int) { kv = append(kv, fmt.Sprintf("%d:%d", k, v)) })
+	sort.Strings(kv)
+	s.lrc = strings.Join(kv, ",")
+	return s
+}
+
+// scanCache freezes the entries of the context's result cache (public API: a tracer or a
+// custom memoiser holds the *Result that Get handed out): an entry object must keep
+// reading the same - a later Save may replace the entry, never rewrite it. The cache is
+// walked by reflection so that a library with another cache layout still builds.
+func (m *monitor) scanCache() {
+	if m.ctx == nil || m.viol != nil {
+		return
+	}
+	rv := reflect.ValueOf(m.ctx.ResultCache())
+	if rv.Kind() != reflect.Map {
+		return
+	}
+	it := rv.MapRange()
+	for it.Next() {
+		inner := it.Value()
+		if inner.Kind() != reflect.Map {
+			return
+		}
+		it2 := inner.MapRange()
+		for it2.Next() {
+			r, ok := it2.Value().Interface().(*parsley.Result)
+			if !ok || r == nil {
+				continue
+			}
+			now := snapResult(r)
+			old, seen := m.cache[r]
+			if !seen {
+				m.cache[r] = now
+				continue
+			}
+			if now != old {
+				cu := m.culprit()
+				m.viol = &c07Violation{class: "frozen:cache-entry", culprit: cu.label, field: "result",
+					detail: fmt.Sprintf("a *parsley.Result stored in the context's result cache (parser index %v, position %v) was rewritten in place while parser %q (grammar node %d) was running: curtailing set {%s} -> {%s}, left-recursion context {%s} -> {%s}, error %s -> %s, node identity changed: %v", it.Key(), it2.Key(), cu.label, cu.idx, old.cp, now.cp, old.lrc, now.lrc, old.err, now.err, old.node != now.node)}
+				return
+			}
+		}
+	}
+}
+
 type monitor struct {
+	ctx   *parsley.Context
+	cache map[*parsley.Result]cacheSnap
 	text []byte      // the parsed file's (normalised) content and the global position of its first byte
 	base parsley.Pos
 	nodes     map[interface{}]*shallow
@@ -305,7 +368,7 @@ type monitor struct {
 const c07Known = "C07-rtrim-readerpos"
 
 func newMonitor() *monitor {
-	return &monitor{nodes: map[interface{}]*shallow{}, lists: map[listKey][]kidKey{}, knownOpen: openFindings[c07Known], reused: map[interface{}]string{}}
+	return &monitor{nodes: map[interface{}]*shallow{}, lists: map[listKey][]kidKey{}, knownOpen: openFindings[c07Known], reused: map[interface{}]string{}, cache: map[*parsley.Result]cacheSnap{}}
 }
 
 func isPtrNode(n parsley.Node) bool {
@@ -432,6 +495,7 @@ func (m *monitor) checkAll() {
 	if m.viol != nil {
 		return
 	}
+	defer m.scanCache()
 	for _, n := range m.nodeOrder {
 		old := m.nodes[n]
 		cur := shallowOf(n)
@@ -735,6 +799,7 @@ func (*c07Prop) Run(cc Case) (v Verdict) {
 	b := build(c.G, &buildOpts{Memo: true, Wrap: m.wrap, LibInterp: true})
 	an := c.G.analyze()
 	ctx := newCtx(c.Input, c.Prefix)
+	m.ctx = ctx
 	m.text, m.base = bytes.Replace([]byte(c.Input), []byte("\r\n"), []byte("\n"), -1), ctx.Reader().Pos(0)
 	first := map[[2]int]string{}
 	consumers := map[int]bool{}
